@@ -204,3 +204,18 @@ func LookupString(s string) (p Properties, sz int) {
 	// Illegal rune
 	return Properties{}, 1
 }
+
+// BracketPairs lists the (opening, closing) pairs of Unicode's BidiBrackets
+// data (BD14-BD16) in code point order of the opening bracket.
+func BracketPairs() [][2]rune {
+	var out [][2]rune
+	for r := rune(0); r <= 0x10FFFF; r++ {
+		if r >= 0xD800 && r <= 0xDFFF {
+			continue
+		}
+		if p, _ := LookupRune(r); p.IsOpeningBracket() {
+			out = append(out, [2]rune{r, p.reverseBracket(r)})
+		}
+	}
+	return out
+}
